@@ -131,4 +131,50 @@ theorem readAll_spec (ks : Nat → UInt8) (c : Conn) (rd : List Nat) (src : Src)
           rw [← hflat, xorAt_append]
         · rw [h2]; simp [xorAt_length]; omega
 
+theorem readE_flat (k : Nat) (src : ESrc) (got : Bytes) (e : Option Nat) (src' : ESrc)
+    (h : readE k src = some (got, e, src')) : got ++ src'.bytes = src.bytes := by
+  cases src with
+  | nil => simp [readE] at h
+  | cons ce cs =>
+    obtain ⟨c, e0⟩ := ce
+    simp only [readE] at h
+    split at h
+    · simp at h; obtain ⟨rfl, rfl, rfl⟩ := h; simp [ESrc.bytes]
+    · simp at h; obtain ⟨rfl, rfl, rfl⟩ := h
+      simp only [ESrc.bytes, List.map_cons, List.flatten_cons]
+      rw [← List.append_assoc, List.take_append_drop]
+
+/-- any sequence of Conn.Read calls on a connection that may deliver bytes together with
+    errors: ALL bytes returned (whatever error came with them), followed by what the rest of
+    the wire will decrypt to, are the decryption of the whole wire; `dec` has advanced by
+    exactly the bytes returned — the keystream stays in sync after every error. -/
+theorem readAllErr_spec (ks : Nat → UInt8) (c : Conn) (rd : List Nat) (src : ESrc) :
+    ((readAllErr ks c rd src).1.map (·.1)).flatten
+        ++ xorAt ks (readAllErr ks c rd src).2.1.decPos (readAllErr ks c rd src).2.2.bytes
+      = xorAt ks c.decPos src.bytes ∧
+    (readAllErr ks c rd src).2.1.decPos
+      = c.decPos + ((readAllErr ks c rd src).1.map (·.1)).flatten.length := by
+  induction rd generalizing c src with
+  | nil => simp [readAllErr]
+  | cons k rd ih =>
+    unfold readAllErr
+    cases hr : readErr ks c k src with
+    | none => simp
+    | some v =>
+      obtain ⟨got, e, c', src'⟩ := v
+      unfold readErr at hr
+      cases hc : readE k src with
+      | none => simp [hc] at hr
+      | some w =>
+        obtain ⟨g, e', s'⟩ := w
+        simp only [hc, Option.some.injEq, Prod.mk.injEq] at hr
+        obtain ⟨rfl, rfl, rfl, rfl⟩ := hr
+        have hflat := readE_flat k src g e' s' hc
+        obtain ⟨h1, h2⟩ := ih { c with decPos := c.decPos + g.length } s'
+        simp only at h1 h2 ⊢
+        refine ⟨?_, ?_⟩
+        · simp only [List.map_cons, List.flatten_cons, List.append_assoc, h1]
+          rw [← hflat, xorAt_append]
+        · rw [h2]; simp [xorAt_length]; omega
+
 end Storrent.CryptoConn
